@@ -36,7 +36,7 @@ OPTS = {
     'r2_inpaint_thresh': (lambda v: ['-rit', repr(v)], [0.0, 0.25, 0.5, 0.9], 0.25),
     'proc_crs': (lambda v: ['-pc', v], ['auto', 'ref', 'src'], 'auto'),
     'dtype': (lambda v: ['--dtype', v], ['float32', 'int16', 'uint16', 'float64'], 'float32'),
-    'nodata': (lambda v: ['--nodata', 'null' if v is None else repr(v)], [0.0, -9999.0, None, 1.0], float('nan')),
+    'nodata': (lambda v: ['--nodata', 'null' if v is None else repr(v)], [0.0, -9999.0, None, 1.0, 0.1], float('nan')),
     'build_ovw': (lambda v: ['-bo' if v else '-nbo'], [False], True),
     'overwrite': (lambda v: ['-o'] if v else [], [True], False),
     'creation_options': (lambda v: sum([['-co', f'{k}={val}'] for k, val in v.items()], []),
@@ -64,6 +64,12 @@ def gen_case(run, i):
         if k == 'param_image' and how != 'both':
             vf = vc = True
         choice[k] = dict(how=how, flag=vf if how in ('flag', 'both') else None, conf=vc if how in ('conf', 'both') else None)
+    if i % 8 == 5:
+        # a nodata value that only a 64-bit output can hold (no float32 number), given on the command line
+        choice['dtype'] = dict(how='flag', flag='float64', conf=None)
+        choice['nodata'] = dict(how=rng.choice(['flag', 'both']), flag=rng.choice([0.1, -9999.9, 1e-300]), conf=None)
+        if choice['nodata']['how'] == 'both':
+            choice['nodata']['conf'] = 0.3
     nb = rng.choice([1, 2, 3])
     bands = None
     if nb > 1 and rng.random() < 0.4:
